@@ -60,6 +60,11 @@ fn pino_sol_log_data(data: &[&[u8]]) {
 
     #[cfg(not(target_os = "solana"))]
     core::hint::black_box(data);
+
+    // verification hook: off-chain the event is otherwise dropped; forward it to the same sink
+    // Anchor events use so that a simulator can capture it.
+    #[cfg(all(orca_so_whirlpools_verif, not(target_os = "solana")))]
+    anchor_lang::solana_program::log::sol_log_data(data);
 }
 
 impl Event<'_> {
